@@ -5,6 +5,7 @@ CONSTANTS
   MenuKind = "general"
   MaxDepth = 2
   StartChain = FALSE
+  EmitMin = 0
   Emit = TRUE
 INVARIANT BagMatches
 INVARIANT ListMatches
